@@ -349,6 +349,10 @@ func checkC12(c *core.Ctx) {
 				c.Inconclusive("harness: generated text not parsable in iterator stress")
 				continue
 			}
+			if strings.HasPrefix(o.Problem, "inconclusive") {
+				c.Inconclusive("iterator stress: " + o.Problem)
+				return
+			}
 			if o.Problem != "" {
 				c.Violate("iterator", k, "iterator:"+o.Behaviour+":"+short(o.Problem, 40), fmt.Sprintf("IterVisitor.All with a %s consumer on a tree of %d nodes (GOMAXPROCS=%d): %s", o.Behaviour, o.Nodes, procs, o.Problem), nil)
 				return
